@@ -1,3 +1,4 @@
+import Dagrt.Model.Basic
 /-
 Shared expression type of the models (DESIGN.md section 4): the pymbolic
 expression classes that the dagrt language uses.  Import-free.
@@ -5,13 +6,6 @@ expression classes that the dagrt language uses.  Import-free.
 namespace Dagrt
 
 abbrev Name := String
-
-instance {ε α : Type} [DecidableEq ε] [DecidableEq α] : DecidableEq (Except ε α) := fun a b =>
-  match a, b with
-  | .ok x, .ok y => if h : x = y then isTrue (by rw [h]) else isFalse (fun h' => h (by cases h'; rfl))
-  | .error x, .error y => if h : x = y then isTrue (by rw [h]) else isFalse (fun h' => h (by cases h'; rfl))
-  | .ok _, .error _ => isFalse (fun h => by cases h)
-  | .error _, .ok _ => isFalse (fun h => by cases h)
 
 /-- Python constants that can occur in expressions.  Non-integral floats and
     complex numbers are opaque (their text is kept for printing only). -/
